@@ -1,0 +1,15 @@
+//go:build verif
+
+// Contracts for package indexes, property C07 (comment-only; read by /verif/vcgo, build tag verif).
+// Only what the gsfa readers call: the pubkey -> (offset, size) lookup of the newest linked-log record of an address.
+package indexes
+
+// The value is whatever (*DB).Lookup finds for the 32 key bytes; what the gsfa readers need is the shape of the answer
+// (a fresh non-nil record or an error, never both) and that nothing visible to the caller is written.
+// pre((*DB).Lookup) = validDB(r.index) is a spec function over unexported fields of package compactindexsized: it cannot be
+// named from here (every handle returned by compactindexsized.Open satisfies it), see the report.
+//@ func (*PubkeyToOffsetAndSize_Reader) Get
+//@   mode int
+//@   requires r.index != nil
+//@   ensures result1 == nil ==> result0 != nil && fresh(result0)
+//@   ensures result1 != nil ==> result0 == nil
